@@ -583,6 +583,23 @@ theorem ptr_shape (e : Nat) (c : Bool) (ptr : Option Nat) (off size : Nat) (F : 
       simp only [deref, Except.ok.injEq] at h
       exact ⟨b, rfl, hle, h.symm⟩
 
+/-- the same shape without an access through the cursor (`skip_cursor_wrapper::get_last_value`) -/
+theorem ptr_shape0 (e : Nat) (c : Bool) (ptr : Option Nat) (off size : Nat) (st0 st : Step)
+    (h : (do assertCursor (some e) c; sizeCheck (some e) ptr off size; Except.ok st0 : Out Step) = .ok st) :
+    ∃ p, ptr = some p ∧ p + off + size ≤ e ∧ st = st0 := by
+  simp only [bind, Except.bind] at h
+  split at h
+  · simp at h
+  · split at h
+    · simp at h
+    · rename_i hs
+      obtain ⟨b, hb, hle⟩ := sizeCheck_sound e ptr off size (by
+        cases hsc : sizeCheck (some e) ptr off size with
+        | error x => rw [hsc] at hs; simp at hs
+        | ok u => rfl)
+      simp only [Except.ok.injEq] at h
+      exact ⟨b, hb, hle, h.symm⟩
+
 theorem view_shape (e addr abs size : Nat) (st0 st : Step)
     (h : (do sizeCheck (some e) (some addr) abs size; Except.ok st0 : Out Step) = .ok st) :
     addr + abs + size ≤ e ∧ st = st0 := by
@@ -614,6 +631,9 @@ theorem checked_get_inside (w : Wrapper) (v : LView) (buf : List Nat) (cur : Opt
     | (simp only [I.get_value, I.get_last_value, IDM.get_value, IDM.get_last_value, he] at h
        obtain ⟨hle, hst⟩ := view_shape e v.addr a.abs a.size _ st h
        exact ⟨v.addr + a.abs, by omega, fun _ => by rw [hst]⟩)
+    | (simp only [S.get_last_value, he] at h
+       obtain ⟨p, _, hle, _⟩ := ptr_shape0 e _ cur a.rel a.size _ st h
+       exact ⟨p + a.rel, by omega, fun hne => absurd rfl hne⟩)
 
 /-- the same for setters: the bytes are written at `start` with `start + size ≤ end` -/
 theorem checked_set_inside (w : Wrapper) (v : LView) (buf : List Nat) (cur : Option Nat) (a : Acc) (value : List Nat)
